@@ -64,6 +64,10 @@ def run(db, rep, tier):
 
 def r2(db, rep):
     r3(db, rep)
+    rep.rule("R5-mirror-bits", "TCP / UDP / 802.1Q: the predicate guarding the inner match is true for the mirrored header (our field bits equal "
+                               "the reply's swapped field bits) and false as soon as any one of those bits differs (bit provenance, both "
+                               "byte orders of storage included)", 3)
+    r5(db, rep)
     from vlib import formula
     fs = db.fns_named("Tins::IP::matches_response")
     if not fs:
@@ -262,3 +266,134 @@ def r3(db, rep):
                        % (sorted(accepted), ename, len(dom), len(dom)))
         except ieval.Unknown as e:
             rep.analysis_broken("%s: body outside the finite evaluator: %s" % (fname, e))
+
+
+MIRROR = {
+    "Tins::TCP": (("sport", "dport"), ("dport", "sport")),
+    "Tins::UDP": (("sport", "dport"), ("dport", "sport")),
+    "Tins::Dot1Q": (("id", "id"),),
+}
+
+
+def _subst(b, fn):
+    from vlib import bitprov as bp
+    if isinstance(b, int):
+        return b
+    if b[0] in ("p", "m"):
+        return fn(b)
+    if b[0] == "not":
+        return bp.b_not(_subst(b[1], fn))
+    if b[0] in ("and", "or", "xor"):
+        op = {"and": bp.b_and, "or": bp.b_or, "xor": bp.b_xor}[b[0]]
+        acc = None
+        for x in b[1]:
+            y = _subst(x, fn)
+            acc = y if acc is None else op(acc, y)
+        return acc
+    raise bp.Unsupported("opaque bit %r" % (b[0],))
+
+
+def r5(db, rep):
+    from vlib import bitprov as bp
+    for K, pairs in sorted(MIRROR.items()):
+        short = K.split("::")[-1]
+        key = "%s::matches_response:mirror" % short
+        fs = [f for f in db.fns_named(K + "::matches_response") if f.get("body")]
+        rec = db.records.get(K)
+        if not fs or rec is None:
+            rep.analysis_broken("%s::matches_response vanished" % K)
+            continue
+        f = fs[0]
+        hf = bp.field_of(db, K, "header_")
+        if hf is None:
+            rep.analysis_broken("%s: member header_ not found" % K)
+            continue
+        H = hf["off"]
+        # the guarding if: top-level IfStmt whose branch contains the inner match (or `return true`)
+        top = f["body"].get("c", [])
+        guard = None
+        for i, st in enumerate(top):
+            if st["k"] == "IfStmt":
+                real = [x for x in st["c"] if x is not None]
+                inner = any(x["k"] == "CXXMemberCallExpr" and x.get("cname") == "matches_response" for x in facts.walk(real[1]))
+                if inner:
+                    guard = (i, st, real[0])
+        if guard is None:
+            rep.analysis_broken("%s::matches_response: the condition guarding the inner match was not found" % short)
+            continue
+        gi, gst, gcond = guard
+        try:
+            m = bp.Machine(db)
+            this = m.new_region("this", "m")
+            P = m.new_region("P", "p")
+            thisloc = bp.Loc(this, 0, {"k": "rec", "name": K, "size": rec["size"]})
+            fr = bp.Frame(m, f, thisloc, 0)
+            pt = facts.tyi(f, f["params"][0].get("t"))
+            fr.bind(f["params"][0]["var"], pt, bp.Ptr(bp.Loc(P, 0, (pt or {}).get("to"))))
+            fr.bind(f["params"][1]["var"], facts.tyi(f, f["params"][1].get("t")), bp.BV.const(4096, 32))
+            for st in top[:gi]:
+                try:
+                    fr.stmt(st)
+                except bp._Ret:
+                    raise bp.Unsupported("a statement before the guard returns for a 4096-byte buffer")
+            cbit = fr.truth(fr.rv(gcond))
+            # footprints of the getters
+            pairing = {}        # buffer bit -> this bit
+            for a, b in pairs:
+                ba, bb = [], []
+                for nm, out in ((a, ba), (b, bb)):
+                    gs = [g_ for g_ in db.fns_named(K + "::" + nm) if g_.get("body") and not g_["params"]]
+                    if not gs:
+                        raise bp.Unsupported("getter %s() not found" % nm)
+                    m2 = bp.Machine(db)
+                    t2 = m2.new_region("this", "m")
+                    r = m2.call(gs[0], bp.Loc(t2, 0, thisloc.t), [])
+                    from rules.c15 import result_bits
+                    out.extend(result_bits(m2, r))
+                for x, y in zip(ba, bb):
+                    if isinstance(x, int) and isinstance(y, int):
+                        continue
+                    if isinstance(x, int) or isinstance(y, int) or x[0] != "m" or y[0] != "m":
+                        raise bp.Unsupported("getter bits are not plain header bits")
+                    pairing[y[1] - H] = x[1]
+        except bp.Unsupported as e:
+            rep.analysis_broken("%s::matches_response: outside the bit-provenance interpreter: %s" % (short, e))
+            continue
+        if isinstance(cbit, bool):
+            cbit = 1 if cbit else 0
+        sp, sm = set(), set()
+        bp.support(cbit, "p", sp)
+        bp.support(cbit, "m", sm)
+        site = facts.loc(f, gst)
+        names = ", ".join("%s<->%s" % pr for pr in pairs)
+        bad = None
+
+        def mirror(flip=None):
+            def fn(b):
+                if b[0] == "p":
+                    if b[1] in pairing:
+                        v = ("m", pairing[b[1]])
+                        return bp.b_not(v) if flip == b[1] else v
+                    return b
+                return b
+            return _subst(cbit, fn)
+        try:
+            r0 = mirror()
+            if r0 != 1:
+                extra = sorted(x for x in sp if x not in pairing)
+                bad = ("the mirrored reply (%s) is not accepted unconditionally%s" %
+                       (names, ": the predicate also reads reply bit(s) %s outside the matched fields" % extra[:6] if extra else
+                        " (the compared bits are paired differently)"))
+            else:
+                for j in sorted(pairing):
+                    if mirror(flip=j) != 0:
+                        bad = ("a reply that differs from the mirrored one only in bit %d of byte %d of its header (part of %s) is still "
+                               "accepted" % (j % 8, j // 8, names))
+                        break
+        except bp.Unsupported as e:
+            rep.analysis_broken("%s::matches_response: %s" % (short, e))
+            continue
+        if bad:
+            rep.violation("R5-mirror-bits", key, site, bad)
+        else:
+            rep.ok("R5-mirror-bits", key, site, "%s: %d bit pairs, mirrored header accepted, every single-bit difference rejected" % (names, len(pairing)))
